@@ -145,6 +145,21 @@ def rule_b(repo, chk):
                 if binds and all(isinstance(a, ast.Assign) and isinstance(a.value, ast.Call) and
                                  repo.resolve(a.value.func) in ('re.match', 're.search', 're.fullmatch') for a in binds):
                     unique = True
+        # ... and that component must not degenerate to None (re.match finds nothing when the cursor is on a later line than the bracket)
+        uniq_names = []
+        for e in kx.elts:
+            if isinstance(e, ast.Name):
+                binds = [a for a in stmts_in(cs, (ast.Assign, ast.AugAssign, ast.AnnAssign))
+                         if any(isinstance(t, ast.Name) and t.id == e.id and isinstance(t.ctx, ast.Store) for t in ast.walk(a))]
+                if binds and all(isinstance(a, ast.Assign) and isinstance(a.value, ast.Call) and
+                                 repo.resolve(a.value.func) in ('re.match', 're.search', 're.fullmatch') for a in binds):
+                    uniq_names.append(e.id)
+        if unique and uniq_names and not any(isinstance(e, ast.Name) and e.id in ('inference_state', 'context') for e in kx.elts):
+            yn = [y for y in ys if y.value is kx]
+            guarded = all(any(gate(cs, y, none_accept(nm)) is None for nm in uniq_names) for y in yn)
+            chk.ob('C08.b', guarded, kx, 'the per-call unique key component (`%s`, a regex match) cannot be None when a key is cached' % '/'.join(uniq_names),
+                   'when nothing matches the key is (path, None, position): it compares equal between Scripts and a later Script receives the earlier '
+                   'Script\'s signatures for up to settings.call_signatures_validity seconds', key='signature-key-none')
         chk.ob('C08.b', unique, kx, 'the signature cache key `%s` has a component that is unique per call/Script (identity-compared), so values '
                'holding an old inference state are never served to a later Script' % short(kx, 70),
                'every component compares by value: a later Script within the validity window gets the old Script\'s signatures')
